@@ -107,7 +107,8 @@ func TestHLSLParseClassification(t *testing.T) {
 		{"global without static", hlslBody("float g = 1.0;", ""), "unsupported"},
 		{"preprocessor", "#define X 1\n" + hlslBody("", ""), "unsupported"},
 		{"templated load", hlslBody("ByteAddressBuffer r : register(t1);", "float a = r.Load<float>(0);"), "unsupported"},
-		{"scalar function-style cast to vector", hlslBody("", "float3 v = float3(1.0);"), "unsupported"},
+		{"scalar function-style cast to vector (DXC meaning)", hlslBody("", "float3 v = float3(1.0); float2 w = float2(v); o.Store(0, asuint(v.z + w.y));"), ""},
+		{"function-style cast that extends a vector", hlslBody("", "float3 v = float3(float2(1, 2));"), "unsupported"},
 		{"integer matrix", hlslBody("", "int2x2 m = (int2x2)0;"), "unsupported"},
 	}
 	for _, c := range cases {
